@@ -231,8 +231,6 @@ _C02 = [
     H("segment", "c02_selectors_idx_slice", funcs=["query::segment::process_selectors"], symbolic="slice bounds 0..3, j in -4..4", shape="[j, s:e] on one array of 3", est=120),
     H("segment", "c02_selectors_wild_idx", funcs=["query::segment::process_selectors"], symbolic="j in -3..3", shape="[*, j] on one array of 2", est=60),
     H("segment", "c02_selectors_three", funcs=["query::segment::process_selectors"], symbolic="i, j, k in -3..2", shape="[i, j, k] on one array of 2", est=90),
-    H("segment", "c02_selectors_0_1_wild", funcs=["query::segment::process_selectors", "query::state::Data::reduce"], symbolic="element payloads", shape="[0, 1, *] on one array of 3 (concrete lengths throughout; K = 8)", est=60, timeout=600),
-    H("segment", "c02_selectors_m1_0_wild", funcs=["query::segment::process_selectors", "query::state::Data::reduce"], symbolic="element payloads", shape="[-1, 0, *] on one array of 3 (concrete lengths throughout; K = 8)", est=60, timeout=600),
     H("segment", "c02_selectors_idx_idx_wild", funcs=["query::segment::process_selectors", "query::state::Data::reduce"], symbolic="i, j in -4..3",
       shape="[i, j, *] on one array of 3 (a later selector yielding more nodes than all earlier ones; K = 8 allocation regime)", est=150, timeout=900),
 ]
